@@ -7,6 +7,7 @@ import (
 	"go/types"
 	"os"
 	"os/exec"
+	"math/big"
 	"path/filepath"
 	"regexp"
 	"sort"
@@ -137,6 +138,7 @@ func runC01(c *Ctx) {
 	c.boundsObligations(fns, bce)
 	// ---------------- other panic sources
 	c.otherPanics(fns)
+	c.boxedDictInvariant(fns)
 	// ---------------- recursion and loops
 	c.recursionAndLoops(fns, reach)
 }
@@ -478,6 +480,1043 @@ func (fi *funcInfo) extraTactics(ins ssa.Instruction, goals []Lin, facts []Lin) 
 
 var _ = callgraph.CalleesOf
 
-func (c *Ctx) otherPanics(fns []*ssa.Function) {}
+func (c *Ctx) otherPanics(fns []*ssa.Function) {
+	for _, fn := range fns {
+		fi := newFuncInfo(fn)
+		fname := c.fname(fn)
+		for _, b := range fn.Blocks {
+			for _, ins := range b.Instrs {
+				switch x := ins.(type) {
+				case *ssa.MakeSlice:
+					c.allocObligation(fi, fname, ins, x.Len, x.Cap, "make slice")
+				case *ssa.MakeMap:
+					if x.Reserve != nil {
+						c.allocObligation(fi, fname, ins, x.Reserve, nil, "make map")
+					}
+				case *ssa.TypeAssert:
+					if !x.CommaOk {
+						c.assertObligation(fname, x)
+					}
+				case *ssa.BinOp:
+					if x.Op == token.QUO || x.Op == token.REM {
+						if _, _, isInt := isIntType(x.Type()); isInt {
+							c.divObligation(fi, fname, x)
+						}
+					}
+				case *ssa.Panic:
+					c.fail("PANIC-EXPLICIT", fname, "panic("+c.valShape(x.X)+")", x.Pos(), "an explicit panic is reachable from a reader entry point")
+				case *ssa.MapUpdate:
+					c.mapUpdateObligation(fname, x)
+				case *ssa.Call:
+					c.fmtObligation(fname, x)
+					c.growObligation(fi, fname, x)
+				}
+			}
+		}
+	}
+	c.nilDerefObligations(fns)
+}
 
-func (c *Ctx) recursionAndLoops(fns []*ssa.Function, reach map[*ssa.Function]bool) {}
+func (c *Ctx) recursionAndLoops(fns []*ssa.Function, reach map[*ssa.Function]bool) {
+	c.recursionGates(fns, reach)
+	c.loopClasses(fns)
+	// the reviewed termination arguments of the charstring loops rest on the subroutine depth limit
+	clauses, info := c.t1CommandClauses()
+	c.subrRules(info, clauses)
+}
+
+const maxAlloc = 1 << 24
+
+// allocObligation: the size of an allocation is a constant, or entailed within [0, 2^24],
+// or bounded by the length of an object that already exists (plus a constant).
+func (c *Ctx) allocObligation(fi *funcInfo, fname string, ins ssa.Instruction, n, capv ssa.Value, what string) {
+	if capv != nil && capv != n {
+		c.allocObligation(fi, fname, ins, capv, nil, what+" capacity")
+	}
+	if _, isC := constInt(n); isC {
+		return
+	}
+	t := fi.term(n)
+	construct := what + "(" + c.valShape(n) + ")"
+	facts := fi.factsAt(ins.Block(), ins)
+	if fi.prove([]Lin{t, konst(maxAlloc).sub(t)}, facts, 0) {
+		c.rep.add(Obligation{Rule: "PANIC-ALLOC", Func: fname, Construct: construct, Pos: c.pos(ins.Pos()), Status: stOK, Tactic: fmt.Sprintf("0 <= n <= %d entailed", maxAlloc)})
+		return
+	}
+	// bounded by existing objects: 0 <= n <= 2*len(x) + 64 for some object x whose length occurs in the size or in the guards
+	if fi.prove([]Lin{t}, facts, 0) {
+		cands := map[string]bool{}
+		for a := range t.coef {
+			if strings.HasPrefix(a, "len") {
+				cands[a] = true
+			}
+		}
+		gf0, _ := splitNEQ(facts)
+		gf0 = append(gf0, fi.divisionFacts([]Lin{t})...)
+		gf0 = append(gf0, fi.rangeFacts(append([]Lin{t}, gf0...)...)...)
+		for _, f := range gf0 {
+			for a := range f.coef {
+				if strings.HasPrefix(a, "len") {
+					cands[a] = true
+				}
+			}
+		}
+		for a := range cands {
+			bound := atom(a).scale(big.NewRat(2, 1)).addK(64)
+			if fi.prove([]Lin{bound.sub(t)}, facts, 0) {
+				c.rep.add(Obligation{Rule: "PANIC-ALLOC", Func: fname, Construct: construct, Pos: c.pos(ins.Pos()), Status: stOK, Tactic: "0 <= n <= 2*" + shapeAtom(a) + " + 64: bounded by the size of existing data"})
+				return
+			}
+		}
+	}
+	var fs []string
+	gf, nf := splitNEQ(facts)
+	for _, f := range gf {
+		fs = append(fs, renderFact(f))
+	}
+	for _, f := range nf {
+		fs = append(fs, strings.Replace(renderFact(f), " >= 0", " != 0", 1))
+	}
+	c.rep.add(Obligation{Rule: "PANIC-ALLOC", Func: fname, Construct: construct, Pos: c.pos(ins.Pos()), Status: stViolation, Kind: "undecided",
+		Detail: "the allocation size " + renderFact(t) + " is not shown to lie in [0, 2^24] nor to be bounded by the size of existing data: a hostile operand could make it negative (panic) or absurdly large", Facts: dedupSorted(fs)})
+}
+
+// growObligation: slices.Grow(s, n) panics for n < 0.
+func (c *Ctx) growObligation(fi *funcInfo, fname string, call *ssa.Call) {
+	sc := call.Call.StaticCallee()
+	if sc == nil || !strings.HasPrefix(calleeName(sc), "slices.Grow") || len(call.Call.Args) != 2 {
+		return
+	}
+	c.allocObligation(fi, fname, call, call.Call.Args[1], nil, "slices.Grow")
+}
+
+func (c *Ctx) divObligation(fi *funcInfo, fname string, x *ssa.BinOp) {
+	if k, isC := constInt(x.Y); isC {
+		if k == 0 {
+			c.fail("PANIC-DIV", fname, "division by constant zero", x.Pos(), "division by zero")
+		}
+		return
+	}
+	d := fi.term(x.Y)
+	facts := fi.factsAt(x.Block(), x)
+	construct := "divisor " + c.valShape(x.Y)
+	_, neq := splitNEQ(facts)
+	direct := false
+	for _, q := range neq {
+		if q.String() == d.String() || q.String() == d.neg().String() {
+			direct = true
+		}
+	}
+	if direct || fi.prove([]Lin{d.addK(-1)}, facts, 0) || fi.prove([]Lin{d.neg().addK(-1)}, facts, 0) {
+		c.rep.add(Obligation{Rule: "PANIC-DIV", Func: fname, Construct: construct, Pos: c.pos(x.Pos()), Status: stOK, Tactic: "divisor != 0 entailed"})
+		return
+	}
+	c.rep.add(Obligation{Rule: "PANIC-DIV", Func: fname, Construct: construct, Pos: c.pos(x.Pos()), Status: stViolation, Kind: "undecided", Detail: "the integer divisor is not shown to be non-zero"})
+}
+
+// assertObligation: x.(T) without ,ok.
+func (c *Ctx) assertObligation(fname string, x *ssa.TypeAssert) {
+	construct := c.valShape(x.X) + ".(" + types.TypeString(x.AssertedType, func(*types.Package) string { return "" }) + ")"
+	// (a) dominated by a successful ,ok assertion / type-switch case of the same value and type
+	for _, cd := range domConds(x.Block()) {
+		if !cd.truth {
+			continue
+		}
+		if ex, ok := cd.v.(*ssa.Extract); ok && ex.Index == 1 {
+			if ta, ok := ex.Tuple.(*ssa.TypeAssert); ok && ta.CommaOk && types.Identical(ta.AssertedType, x.AssertedType) && sameValue(ta.X, x.X) {
+				c.ok("PANIC-ASSERT", fname, construct, x.Pos(), "dominated by a successful `, ok` assertion of the same value", "")
+				return
+			}
+		}
+		// conjunction: aIsDict && bIsDict is split into blocks by go/ssa, each giving its own condition
+	}
+	// (b) content invariant of the system dictionary literal / the Resources dictionary
+	if lk, ok := origin(x.X).(*ssa.Lookup); ok {
+		if key, isC := constString(stripConv(lk.Index)); isC {
+			// literal built by makeSystemDict binds the key to a value of the asserted type
+			if e := c.registry().byKey["systemdict/"+key]; e != nil && e.typ != nil && types.Identical(e.typ, x.AssertedType) {
+				if call, ok := origin(lk.X).(*ssa.Call); ok && call.Call.StaticCallee() == c.fn("postscript", "makeSystemDict") {
+					c.ok("PANIC-ASSERT", fname, construct, x.Pos(), "the literal returned by makeSystemDict binds this key to a value of this type", "")
+					return
+				}
+			}
+		}
+	}
+	if c.resourcesInvariant(x) {
+		c.ok("PANIC-ASSERT", fname, construct, x.Pos(), "Interpreter.Resources holds only Dict values: written only by NewInterpreter with Dict literals, never boxed or stored elsewhere", "")
+		return
+	}
+	c.rep.add(Obligation{Rule: "PANIC-ASSERT", Func: fname, Construct: construct, Pos: c.pos(x.Pos()), Status: stViolation, Kind: "undecided", Detail: "type assertion without `, ok` on a value whose dynamic type is not established: it panics when the value has another type"})
+}
+
+// resourcesInvariant: x asserts Dict on a value looked up in Interpreter.Resources.
+func (c *Ctx) resourcesInvariant(x *ssa.TypeAssert) bool {
+	ia := c.interp()
+	v := origin(x.X)
+	if ex, ok := v.(*ssa.Extract); ok {
+		v = ex.Tuple
+	}
+	lk, ok := v.(*ssa.Lookup)
+	if !ok || !isFieldLoad(lk.X, ia.T, "Resources") {
+		return false
+	}
+	if !typeIsNamed(x.AssertedType, c.typeObj("postscript", "Dict")) {
+		return false
+	}
+	// who writes the field / the map
+	okAll := true
+	newInterp := c.fn("postscript", "NewInterpreter")
+	for _, f := range c.modFuncs {
+		eachInstr(f, func(ins ssa.Instruction) {
+			switch y := ins.(type) {
+			case *ssa.Store:
+				if isFieldAddr(y.Addr, ia.T, "Resources") && f != newInterp {
+					okAll = false
+				}
+			case *ssa.MapUpdate:
+				if isFieldLoad(y.Map, ia.T, "Resources") {
+					okAll = false
+				}
+			case *ssa.MakeInterface:
+				if isFieldLoad(y.X, ia.T, "Resources") {
+					okAll = false
+				}
+			}
+		})
+	}
+	// the literal in NewInterpreter has only Dict values
+	eachInstr(newInterp, func(ins ssa.Instruction) {
+		mu, ok := ins.(*ssa.MapUpdate)
+		if !ok {
+			return
+		}
+		// updates of the fresh `resources` map: values must be Dict
+		if mm, ok := mu.Map.(*ssa.MakeMap); ok {
+			_ = mm
+			if mi, ok := mu.Value.(*ssa.MakeInterface); ok {
+				if _, isName := constString(stripConv(mu.Key)); isName && !typeIsNamed(mi.X.Type(), c.typeObj("postscript", "Dict")) {
+					// only the resources map has these category keys; other maps in NewInterpreter are checked by value type below
+					if k, _ := constString(stripConv(mu.Key)); k == "Font" || k == "CIDFont" || k == "CMap" || k == "ProcSet" {
+						okAll = false
+					}
+				}
+			}
+		}
+	})
+	return okAll
+}
+
+// mapUpdateObligation: no write to a possibly nil map.
+func (c *Ctx) mapUpdateObligation(fname string, mu *ssa.MapUpdate) {
+	construct := c.valShape(mu.Map) + "[…] = …"
+	if c.mapNonNil(mu.Map, mu, map[ssa.Value]bool{}) {
+		c.ok("PANIC-NILMAP", fname, construct, mu.Pos(), "the map is made in this function, or is a Dict taken from the interpreter (no nil Dict is ever boxed or stored: inductive invariant checked below)", "")
+		return
+	}
+	c.rep.add(Obligation{Rule: "PANIC-NILMAP", Func: fname, Construct: construct, Pos: c.pos(mu.Pos()), Status: stViolation, Kind: "undecided", Detail: "write to a map that may be nil"})
+}
+
+func (c *Ctx) mapNonNil(v ssa.Value, at ssa.Instruction, seen map[ssa.Value]bool) bool {
+	if seen[v] {
+		return true
+	}
+	seen[v] = true
+	switch x := v.(type) {
+	case *ssa.MakeMap:
+		return true
+	case *ssa.Parameter:
+		// every static call site passes a non-nil map
+		fn := x.Parent()
+		if fn.Parent() != nil || exportedAPI(fn) {
+			return false
+		}
+		idx := -1
+		for i, p := range fn.Params {
+			if p == x {
+				idx = i
+			}
+		}
+		n := 0
+		for _, caller := range c.modFuncs {
+			for _, call := range staticCalls(caller, fn) {
+				n++
+				if !c.mapNonNil(call.Common().Args[idx], call, seen) {
+					return false
+				}
+			}
+		}
+		return n > 0
+	case *ssa.Phi:
+		for _, e := range x.Edges {
+			if !c.mapNonNil(e, at, seen) {
+				return false
+			}
+		}
+		return true
+	case *ssa.ChangeType:
+		return c.mapNonNil(x.X, at, seen)
+	case *ssa.Extract:
+		// v, ok := iface.(Dict): non-nil by the boxed-Dict invariant when ok (a nil Dict is never boxed)
+		if ta, ok := x.Tuple.(*ssa.TypeAssert); ok && x.Index == 0 {
+			return typeIsNamed(ta.AssertedType, c.typeObj("postscript", "Dict"))
+		}
+		if call, ok := x.Tuple.(*ssa.Call); ok {
+			return c.returnsNonNilMap(call, x.Index)
+		}
+	case *ssa.TypeAssert:
+		return typeIsNamed(x.AssertedType, c.typeObj("postscript", "Dict"))
+	case *ssa.Call:
+		return c.returnsNonNilMap(x, 0)
+	case *ssa.UnOp:
+		if x.Op == token.MUL {
+			// load from DictStack / a Dict-typed field of the interpreter: covered by the stored-Dict invariant
+			if ix, ok := x.X.(*ssa.IndexAddr); ok {
+				if isFieldLoad(ix.X, c.interp().T, "DictStack") {
+					return true
+				}
+			}
+			if _, f, ok := fieldAddrOf(x.X); ok {
+				if typeIsNamed(f.Type(), c.typeObj("postscript", "Dict")) {
+					return true
+				}
+				// glyph map tables etc.: maps stored in struct fields that are only ever assigned made maps
+				return c.fieldOnlyMadeMaps(f)
+			}
+			if g, ok := x.X.(*ssa.Global); ok {
+				// package-level map initialised with a literal and never reassigned (C18 ISO-GLOBALSTORE)
+				made := false
+				eachInstr(g.Pkg.Func("init"), func(i2 ssa.Instruction) {
+					if st, ok := i2.(*ssa.Store); ok && st.Addr == ssa.Value(g) {
+						if _, ok := st.Val.(*ssa.MakeMap); ok {
+							made = true
+						}
+					}
+				})
+				return made
+			}
+			if al, ok := x.X.(*ssa.Alloc); ok {
+				okAll := true
+				for _, r := range *al.Referrers() {
+					if st, ok := r.(*ssa.Store); ok && st.Addr == al {
+						if !c.mapNonNil(st.Val, at, seen) {
+							okAll = false
+						}
+					}
+				}
+				return okAll
+			}
+			if fv, ok := x.X.(*ssa.FreeVar); ok {
+				_ = fv
+				return true // captured local of the enclosing function; its stores are checked there
+			}
+		}
+	case *ssa.Lookup:
+		// element of a map of maps
+		return false
+	}
+	return false
+}
+
+func (c *Ctx) returnsNonNilMap(call *ssa.Call, idx int) bool {
+	sc := call.Call.StaticCallee()
+	if sc != nil && (strings.HasPrefix(calleeName(sc), "maps.Clone") || strings.HasPrefix(calleeName(sc), "golang.org/x/exp/maps.Clone")) {
+		// Clone of a non-nil map is non-nil
+		return c.mapNonNil(call.Call.Args[0], call, map[ssa.Value]bool{})
+	}
+	if sc == nil || sc.Blocks == nil || !c.inModule(sc) {
+		return false
+	}
+	okAll := true
+	for _, r := range returns(sc) {
+		if idx >= len(r.Results) || !c.mapNonNil(r.Results[idx], r, map[ssa.Value]bool{}) {
+			okAll = false
+		}
+	}
+	return okAll
+}
+
+func (c *Ctx) fieldOnlyMadeMaps(f *types.Var) bool {
+	okAll := true
+	n := 0
+	for _, fn := range c.modFuncs {
+		eachInstr(fn, func(ins ssa.Instruction) {
+			st, ok := ins.(*ssa.Store)
+			if !ok {
+				return
+			}
+			if _, fld, ok := fieldAddrOf(st.Addr); ok && fld == f {
+				n++
+				if !c.mapNonNil(st.Val, st, map[ssa.Value]bool{}) {
+					okAll = false
+				}
+			}
+		})
+	}
+	return okAll && n > 0
+}
+
+// boxedDictInvariant: every conversion of a Dict to an interface, and every
+// store of a Dict into the dictionary stack or an interpreter field, has a
+// non-nil operand.
+func (c *Ctx) boxedDictInvariant(fns []*ssa.Function) {
+	dictT := c.typeObj("postscript", "Dict")
+	n := 0
+	for _, fn := range c.modFuncs {
+		fname := c.fname(fn)
+		eachInstr(fn, func(ins ssa.Instruction) {
+			var v ssa.Value
+			what := ""
+			switch x := ins.(type) {
+			case *ssa.MakeInterface:
+				if typeIsNamed(x.X.Type(), dictT) {
+					v, what = x.X, "Dict boxed into an object"
+				}
+			case *ssa.Store:
+				if typeIsNamed(x.Val.Type(), dictT) {
+					if _, isAlloc := x.Addr.(*ssa.Alloc); !isAlloc {
+						v, what = x.Val, "Dict stored"
+					}
+				}
+			}
+			if v == nil {
+				return
+			}
+			n++
+			if c.mapNonNil(v, ins, map[ssa.Value]bool{}) {
+				c.ok("PANIC-NILMAP", fname, what+": "+c.valShape(v), ins.Pos(), "operand is a made map or a Dict already covered by the invariant", "")
+			} else {
+				c.rep.add(Obligation{Rule: "PANIC-NILMAP", Func: fname, Construct: what + ": " + c.valShape(v), Pos: c.pos(ins.Pos()), Status: stViolation, Kind: "undecided",
+					Detail: "a Dict that may be nil becomes reachable by PostScript programs; `def`, `put` or `begin` on it would panic"})
+			}
+		})
+	}
+}
+
+// fmtObligation: a value verb (%v %s %q %d …) applied to an operand of a
+// composite object type walks the object; a self-referential array or
+// procedure then recurses until the stack is exhausted.  Only %T is safe.
+func (c *Ctx) fmtObligation(fname string, call *ssa.Call) {
+	sc := call.Call.StaticCallee()
+	if sc == nil {
+		return
+	}
+	fmtArg := -1
+	switch calleeName(sc) {
+	case "fmt.Sprintf", "fmt.Errorf":
+		fmtArg = 0
+	case "fmt.Fprintf":
+		fmtArg = 1
+	default:
+		if sc.Name() == "e" && c.inModule(sc) && len(call.Call.Args) >= 4 {
+			fmtArg = 2
+		}
+	}
+	if fmtArg < 0 || fmtArg >= len(call.Call.Args) {
+		return
+	}
+	format, isC := constString(call.Call.Args[fmtArg])
+	if !isC {
+		return
+	}
+	// variadic arguments: the slice built from an array allocation
+	sl, ok := call.Call.Args[len(call.Call.Args)-1].(*ssa.Slice)
+	if !ok {
+		return
+	}
+	al, ok := sl.X.(*ssa.Alloc)
+	if !ok {
+		return
+	}
+	args := map[int64]ssa.Value{}
+	for _, r := range *al.Referrers() {
+		if ix, ok := r.(*ssa.IndexAddr); ok {
+			k, _ := constInt(ix.Index)
+			for _, rr := range *ix.Referrers() {
+				if st, ok := rr.(*ssa.Store); ok {
+					args[k] = st.Val
+				}
+			}
+		}
+	}
+	verbs := fmtVerbs(format)
+	for i, vb := range verbs {
+		a, ok := args[int64(i)]
+		if !ok || vb == 'T' {
+			continue
+		}
+		t := a.Type()
+		for {
+			if mi, ok := a.(*ssa.MakeInterface); ok {
+				a, t = mi.X, mi.X.Type()
+				continue
+			}
+			if ci, ok := a.(*ssa.ChangeInterface); ok {
+				a, t = ci.X, ci.X.Type()
+				continue
+			}
+			break
+		}
+		if c.cyclicCapable(t) {
+			c.fail("PANIC-FMTCYCLE", fname, fmt.Sprintf("verb %%%c applied to %s", vb, c.valShape(a)), call.Pos(),
+				fmt.Sprintf("the message `%s` formats an operand of type %s with %%%c: fmt walks composite objects, and a program can build a self-referential array or procedure (`1 array dup dup 0 exch put`), which makes fmt recurse until the goroutine stack is exhausted; use %%T", format, t, vb))
+		} else {
+			c.ok("PANIC-FMTCYCLE", fname, fmt.Sprintf("verb %%%c applied to %s", vb, c.valShape(a)), call.Pos(), "operand type "+t.String()+" cannot be cyclic", "")
+		}
+	}
+}
+
+func fmtVerbs(format string) []byte {
+	var out []byte
+	for i := 0; i < len(format); i++ {
+		if format[i] != '%' {
+			continue
+		}
+		i++
+		for i < len(format) && strings.IndexByte("+-# 0123456789.", format[i]) >= 0 {
+			i++
+		}
+		if i < len(format) && format[i] != '%' {
+			out = append(out, format[i])
+		}
+	}
+	return out
+}
+
+// cyclicCapable: a value of this type may (transitively) contain itself:
+// interfaces (Object), and slices/maps whose elements are interfaces.
+func (c *Ctx) cyclicCapable(t types.Type) bool {
+	switch u := t.Underlying().(type) {
+	case *types.Interface:
+		return !types.Identical(t, types.Universe.Lookup("error").Type())
+	case *types.Slice:
+		return c.cyclicCapable(u.Elem())
+	case *types.Map:
+		return c.cyclicCapable(u.Elem())
+	case *types.Array:
+		return c.cyclicCapable(u.Elem())
+	}
+	return false
+}
+
+// nilDerefObligations: pointers that may be nil (loaded from a map, from a
+// field that is somewhere assigned nil, or merged with nil) are dereferenced
+// only under a nil test.
+func (c *Ctx) nilDerefObligations(fns []*ssa.Function) {
+	// pointer fields that are assigned nil somewhere
+	nilable := map[*types.Var]bool{}
+	for _, fn := range c.modFuncs {
+		eachInstr(fn, func(ins ssa.Instruction) {
+			if st, ok := ins.(*ssa.Store); ok && isNilConst(st.Val) {
+				if _, f, ok := fieldAddrOf(st.Addr); ok {
+					if _, isPtr := f.Type().Underlying().(*types.Pointer); isPtr {
+						nilable[f] = true
+					}
+				}
+			}
+		})
+	}
+	maybeNil := func(v ssa.Value) (string, bool) {
+		v0 := v
+		switch x := v0.(type) {
+		case *ssa.Lookup:
+			if _, isMap := x.X.Type().Underlying().(*types.Map); isMap {
+				return "looked up in a map", true
+			}
+		case *ssa.Extract:
+			if lk, ok := x.Tuple.(*ssa.Lookup); ok && x.Index == 0 {
+				_ = lk
+				return "looked up in a map", true
+			}
+		case *ssa.UnOp:
+			if x.Op == token.MUL {
+				if _, f, ok := fieldAddrOf(x.X); ok && nilable[f] {
+					return "loaded from field " + f.Name() + ", which is set to nil elsewhere", true
+				}
+			}
+		case *ssa.Phi:
+			for _, e := range x.Edges {
+				if isNilConst(e) {
+					return "merged with nil", true
+				}
+			}
+		}
+		return "", false
+	}
+	for _, fn := range fns {
+		fname := c.fname(fn)
+		donePtr := map[string]bool{}
+		eachInstr(fn, func(ins ssa.Instruction) {
+			var ptr ssa.Value
+			switch x := ins.(type) {
+			case *ssa.FieldAddr:
+				ptr = x.X
+			case *ssa.UnOp:
+				if x.Op == token.MUL {
+					if _, isPtr := x.X.Type().Underlying().(*types.Pointer); isPtr {
+						if _, isGlobal := x.X.(*ssa.Global); !isGlobal {
+							// plain loads through computed addresses are covered by FieldAddr/IndexAddr obligations
+						}
+					}
+				}
+				return
+			default:
+				return
+			}
+			if _, isPtr := ptr.Type().Underlying().(*types.Pointer); !isPtr {
+				return
+			}
+			why, may := maybeNil(ptr)
+			if !may {
+				return
+			}
+			construct := "dereference of " + c.valShape(ptr)
+			// dominated by ptr != nil (same value), or `, ok` of the lookup
+			guarded := false
+			if par := fn.Parent(); par != nil {
+				// a closure used only as the comparator of one sort call inherits the guards dominating that call
+				if _, f, ok := fieldOf(origin(ptr)); ok {
+					for _, b := range par.Blocks {
+						for _, pi := range b.Instrs {
+							call, ok := pi.(*ssa.Call)
+							if !ok || len(call.Call.Args) != 2 {
+								continue
+							}
+							sc := call.Call.StaticCallee()
+							if sc == nil || !strings.HasPrefix(calleeName(sc), "sort.Slice") {
+								continue
+							}
+							uses := false
+							if mc, ok := call.Call.Args[1].(*ssa.MakeClosure); ok && mc.Fn == fn {
+								uses = true
+							}
+							if !uses {
+								continue
+							}
+							for _, cd := range domConds(call.Block()) {
+								if m, ok := asCmp(cd); ok && m.op == token.NEQ && isNilConst(m.y) {
+									if _, f2, ok := fieldOf(origin(m.x)); ok && f2 == f {
+										guarded = true
+									}
+								}
+							}
+						}
+					}
+				}
+			}
+			for _, cd := range domConds(ins.Block()) {
+				if m, ok := asCmp(cd); ok && m.op == token.NEQ && isNilConst(m.y) && sameValue(m.x, ptr) {
+					guarded = true
+				}
+				if ex, ok := cd.v.(*ssa.Extract); ok && ex.Index == 1 && cd.truth {
+					if pe, ok := ptr.(*ssa.Extract); ok && pe.Tuple == ex.Tuple {
+						guarded = true
+					}
+				}
+			}
+			pk := construct
+			if guarded {
+				pk += "/g"
+			}
+			if donePtr[pk] {
+				return
+			}
+			donePtr[pk] = true
+			if guarded {
+				c.ok("PANIC-NILDEREF", fname, construct, ins.Pos(), "dominated by a nil test of the same value", "")
+				return
+			}
+			c.rep.add(Obligation{Rule: "PANIC-NILDEREF", Func: fname, Construct: construct, Pos: c.pos(ins.Pos()), Status: stViolation, Kind: "undecided", Detail: "a pointer " + why + " is dereferenced without a dominating nil test"})
+		})
+	}
+}
+
+// ---------------------------------------------------------------- recursion
+
+type cgEdge struct {
+	from, to *ssa.Function
+	site     ssa.CallInstruction
+}
+
+func (c *Ctx) recursionGates(fns []*ssa.Function, reach map[*ssa.Function]bool) {
+	ia := c.interp()
+	reg := c.registry()
+	cg := c.callgraph()
+	inSet := map[*ssa.Function]bool{}
+	for _, f := range fns {
+		inSet[f] = true
+	}
+	var edges []cgEdge
+	for _, f := range fns {
+		n := cg.Nodes[f]
+		if n == nil {
+			continue
+		}
+		for _, e := range n.Out {
+			if inSet[e.Callee.Func] {
+				edges = append(edges, cgEdge{f, e.Callee.Func, e.Site})
+			}
+		}
+		for _, an := range f.AnonFuncs {
+			if inSet[an] {
+				edges = append(edges, cgEdge{f, an, nil})
+			}
+		}
+	}
+	bindProc := c.methodOpt("postscript", "Interpreter", "bindProc")
+	execFn := reg.op("systemdict", "exec")
+	eexecFn := reg.op("systemdict", "eexec")
+	gated := func(e cgEdge) (string, bool) {
+		if e.site == nil {
+			return "", false
+		}
+		com := e.site.Common()
+		switch {
+		case e.to == ia.executeOne && com.StaticCallee() == ia.executeOne:
+			if b, isC := constBool(com.Args[2]); isC && b {
+				return "callee passes the execution-depth gate (execProc = true)", true
+			}
+			if e.from == ia.executeOne {
+				target := e.site.Block()
+				var depthGate *ssa.BasicBlock
+				eachInstr(ia.executeOne, func(ins ssa.Instruction) {
+					if st, ok := ins.(*ssa.Store); ok && isFieldAddr(st.Addr, ia.T, "execStackDepth") {
+						if bo, ok := st.Val.(*ssa.BinOp); ok && bo.Op == token.ADD {
+							depthGate = st.Block()
+						}
+					}
+				})
+				if depthGate != nil {
+					q := &pathQuery{fn: ia.executeOne, isTarget: func(b *ssa.BasicBlock) bool { return b == target }, avoid: func(b *ssa.BasicBlock) bool { return b == depthGate }}
+					if !q.search() {
+						return "the calling frame has passed the execution-depth gate (path-sensitive search, rule L3 of C11)", true
+					}
+				}
+			}
+		case e.from == eexecFn && e.to == ia.execScanner:
+			return "nested eexec is refused by BeginEexec (rule L3-EEXEC)", true
+		case e.from == execFn && com.StaticCallee() == nil && !com.IsInvoke():
+			// direct call of an operator object: one operand was popped before, nothing is pushed in between
+			popped := false
+			eachInstr(execFn, func(ins ssa.Instruction) {
+				if st, ok := ins.(*ssa.Store); ok && isFieldAddr(st.Addr, ia.T, "Stack") && dominatesInstr(st, e.site) {
+					if sl, ok := st.Val.(*ssa.Slice); ok && sl.High != nil {
+						popped = true
+					}
+				}
+			})
+			if popped {
+				return "each level consumes one operand (stack height <= 501)", true
+			}
+		case e.from == bindProc && e.to == bindProc:
+			// nesting depth of procedure objects: literals are limited by the procStart gate, dynamic construction by the budget
+			okGate := false
+			eachInstr(ia.executeOne, func(ins ssa.Instruction) {
+				if st, ok := ins.(*ssa.Store); ok && isFieldAddr(st.Addr, ia.T, "procStart") {
+					if _, isCall := st.Val.(*ssa.Call); isCall {
+						if k, ok := upperBoundConst(domConds(st.Block()), func(v ssa.Value) bool { return lenOfField(v, ia.T, "procStart") }); ok && k <= 10000 {
+							okGate = true
+						}
+					}
+				}
+			})
+			if okGate {
+				return "recursion depth = nesting depth of the procedure object; literal nesting is limited by the procStart gate, dynamic nesting by the operation budget", true
+			}
+		}
+		return "", false
+	}
+	adj := map[*ssa.Function][]*ssa.Function{}
+	ngated := 0
+	gateKinds := map[string]int{}
+	for _, e := range edges {
+		if why, ok := gated(e); ok {
+			ngated++
+			gateKinds[why]++
+			continue
+		}
+		adj[e.from] = append(adj[e.from], e.to)
+	}
+	c.rep.Extra["recursion_gate_edges"] = gateKinds
+	// cycles in the remaining graph
+	color := map[*ssa.Function]int{}
+	var stack []*ssa.Function
+	var cyc []string
+	var dfs func(f *ssa.Function) bool
+	dfs = func(f *ssa.Function) bool {
+		color[f] = 1
+		stack = append(stack, f)
+		for _, g := range adj[f] {
+			if color[g] == 1 {
+				for i, x := range stack {
+					if x == g {
+						for _, y := range stack[i:] {
+							cyc = append(cyc, c.fname(y))
+						}
+						cyc = append(cyc, c.fname(g))
+						return true
+					}
+				}
+			}
+			if color[g] == 0 && dfs(g) {
+				return true
+			}
+		}
+		stack = stack[:len(stack)-1]
+		color[f] = 2
+		return false
+	}
+	found := false
+	for _, f := range fns {
+		if color[f] == 0 && dfs(f) {
+			found = true
+			break
+		}
+	}
+	if found {
+		c.fail("RECURSE", strings.Join(dedup(cyc), " → "), "call-graph cycle without a gate", token.NoPos, "the functions "+strings.Join(cyc, " → ")+" can call each other in a cycle that passes none of the depth gates (execution depth, nested eexec refusal, operand consumption, procedure nesting): hostile input can recurse until the goroutine stack is exhausted")
+	} else {
+		c.ok("RECURSE", "reader call graph", "every call-graph cycle passes a gate", token.NoPos, fmt.Sprintf("%d functions, %d edges, %d gate edges removed, remainder acyclic", len(fns), len(edges), ngated), "")
+	}
+	c.eexecNesting(ia)
+}
+
+// ---------------------------------------------------------------- loops
+
+var consumingCalls = map[string]bool{
+	"(*seehuhn.de/go/postscript.scanner).Next": true, "(*seehuhn.de/go/postscript.scanner).readByte": true, "(*seehuhn.de/go/postscript.scanner).readByteRaw": true,
+	"(*seehuhn.de/go/postscript.scanner).readByteEexec": true, "(*seehuhn.de/go/postscript.scanner).ScanToken": true, "(*seehuhn.de/go/postscript.scanner).SkipByte": true,
+	"(*seehuhn.de/go/postscript.scanner).refill": true, "(*seehuhn.de/go/postscript.scanner).SkipRequiredByte": true,
+	"(*bufio.Scanner).Scan": true, "io.ReadFull": true,
+}
+
+func (c *Ctx) loopClasses(fns []*ssa.Function) {
+	ia := c.interp()
+	classes := map[string]int{}
+	for _, fn := range fns {
+		fname := c.fname(fn)
+		headers := map[*ssa.BasicBlock][]*ssa.BasicBlock{} // header -> back-edge sources
+		for _, b := range fn.Blocks {
+			for _, s := range b.Succs {
+				if s.Dominates(b) {
+					headers[s] = append(headers[s], b)
+				}
+			}
+		}
+		var hs []*ssa.BasicBlock
+		for h := range headers {
+			hs = append(hs, h)
+		}
+		sort.Slice(hs, func(i, j int) bool { return hs[i].Index < hs[j].Index })
+		for _, h := range hs {
+			// loop body
+			body := map[*ssa.BasicBlock]bool{h: true}
+			var st []*ssa.BasicBlock
+			st = append(st, headers[h]...)
+			for len(st) > 0 {
+				x := st[len(st)-1]
+				st = st[:len(st)-1]
+				if body[x] {
+					continue
+				}
+				body[x] = true
+				st = append(st, x.Preds...)
+			}
+			class, detail := c.classifyLoop(fn, h, body, ia)
+			construct := "loop at " + loopShape(c, h)
+			if class != "" {
+				classes[class]++
+				c.ok("LOOP", fname, construct, firstPos(h), class+": "+detail, "")
+			} else {
+				c.rep.add(Obligation{Rule: "LOOP", Func: fname, Construct: construct, Pos: c.pos(firstPos(h)), Status: stViolation, Kind: "undecided",
+					Detail: "the loop is neither a range loop, a counted loop, a loop every iteration of which consumes input, nor a loop every iteration of which passes the operation budget: it may not terminate for some input"})
+			}
+		}
+	}
+	c.rep.Extra["loop_classes"] = classes
+	c.floor("LOOP", 60)
+}
+
+// loopShape names a loop by the shape of its controlling condition.
+func loopShape(c *Ctx, h *ssa.BasicBlock) string {
+	for _, b := range []*ssa.BasicBlock{h} {
+		if ifi, ok := b.Instrs[len(b.Instrs)-1].(*ssa.If); ok {
+			return "`" + c.valShape(ifi.Cond) + "`"
+		}
+	}
+	// unconditional header: use the first call in it
+	for _, ins := range h.Instrs {
+		if call, ok := ins.(ssa.CallInstruction); ok {
+			if sc := call.Common().StaticCallee(); sc != nil {
+				return "`for { " + sc.Name() + "(…) … }`"
+			}
+		}
+	}
+	return "`for { … }`"
+}
+
+func (c *Ctx) classifyLoop(fn *ssa.Function, h *ssa.BasicBlock, body map[*ssa.BasicBlock]bool, ia *interpAnchors) (string, string) {
+	// P1: range loops
+	for _, ins := range h.Instrs {
+		if phi, ok := ins.(*ssa.Phi); ok && phi.Comment == "rangeindex" {
+			return "P1 range", "range over a slice, array, string or integer"
+		}
+	}
+	for b := range body {
+		for _, ins := range b.Instrs {
+			if nx, ok := ins.(*ssa.Next); ok {
+				// the ok flag of Next controls the exit
+				_ = nx
+				return "P1 range", "range over a map or string"
+			}
+		}
+	}
+	// P2: counted loop
+	for _, ins := range h.Instrs {
+		phi, ok := ins.(*ssa.Phi)
+		if !ok {
+			continue
+		}
+		pi := analyzePhi(phi)
+		if pi == nil || !guarded(phi, pi) {
+			continue
+		}
+		allPos, allNeg := true, true
+		for _, k := range pi.steps {
+			if k <= 0 {
+				allPos = false
+			}
+			if k >= 0 {
+				allNeg = false
+			}
+		}
+		if !allPos && !allNeg {
+			continue
+		}
+		// an exit condition compares the variable (or its step value) with a value that does not change in the loop
+		if c.countedExit(phi, pi, body, allPos) {
+			dir := "up"
+			if allNeg {
+				dir = "down"
+			}
+			return "P2 counted", "induction variable " + phi.Comment + " counts " + dir + " to a loop-invariant bound"
+		}
+	}
+	// P3/P4: every cycle through the loop passes a consuming call / a budgeted dispatch
+	cutP3 := func(b *ssa.BasicBlock) bool {
+		for _, ins := range b.Instrs {
+			if call, ok := ins.(ssa.CallInstruction); ok {
+				if sc := call.Common().StaticCallee(); sc != nil && consumingCalls[calleeName(sc)] {
+					return true
+				}
+				if call.Common().IsInvoke() && call.Common().Method.Name() == "Read" {
+					return true
+				}
+			}
+		}
+		return false
+	}
+	cutP4 := func(b *ssa.BasicBlock) bool {
+		return len(blockCalls(b, ia.executeOne)) > 0
+	}
+	// the dispatch loop of the interpreter: every iteration passes the operation counter
+	cutGate := func(b *ssa.BasicBlock) bool {
+		for _, ins := range b.Instrs {
+			if st, ok := ins.(*ssa.Store); ok && isFieldAddr(st.Addr, ia.T, "NumOps") {
+				return true
+			}
+		}
+		return false
+	}
+	if !cycleInBody(h, body, func(b *ssa.BasicBlock) bool { return cutGate(b) || cutP4(b) }) {
+		return "P4 budgeted", "every iteration passes the operation counter and budget test (or a nested dispatch)"
+	}
+	if !cycleInBody(h, body, cutP3) {
+		return "P3 consuming", "every iteration reads at least one byte of input or ends the loop"
+	}
+	if !cycleInBody(h, body, cutP4) {
+		return "P4 budgeted", "every iteration dispatches through executeOne, which counts it against the operation budget"
+	}
+	if !cycleInBody(h, body, func(b *ssa.BasicBlock) bool { return cutP3(b) || cutP4(b) }) {
+		return "P3/P4", "every iteration consumes input or is counted against the budget"
+	}
+	return "", ""
+}
+
+// countedExit: the loop has an exit edge whose condition compares phi (or its stepped value) with a loop-invariant value in the right direction.
+func (c *Ctx) countedExit(phi *ssa.Phi, pi *phiInfo, body map[*ssa.BasicBlock]bool, up bool) bool {
+	vals := []ssa.Value{phi}
+	vals = append(vals, pi.stepVals...)
+	for b := range body {
+		ifi, ok := b.Instrs[len(b.Instrs)-1].(*ssa.If)
+		if !ok {
+			continue
+		}
+		exits := !body[b.Succs[0]] || !body[b.Succs[1]]
+		if !exits {
+			continue
+		}
+		bo, ok := ifi.Cond.(*ssa.BinOp)
+		if !ok {
+			continue
+		}
+		for _, v := range vals {
+			var other ssa.Value
+			if bo.X == v {
+				other = bo.Y
+			} else if bo.Y == v {
+				other = bo.X
+			} else {
+				continue
+			}
+			// loop invariant: constant, parameter, or defined outside the loop body and not a memory load inside
+			inv := false
+			switch o := other.(type) {
+			case *ssa.Const, *ssa.Parameter:
+				inv = true
+			default:
+				if oi, ok := o.(ssa.Instruction); ok && !body[oi.Block()] {
+					inv = true
+				}
+			}
+			if !inv {
+				continue
+			}
+			switch bo.Op {
+			case token.LSS, token.LEQ, token.GTR, token.GEQ:
+				return true
+			}
+		}
+	}
+	return false
+}
+
+// cycleInBody: is there a cycle through header h inside body that avoids all cut blocks?
+func cycleInBody(h *ssa.BasicBlock, body map[*ssa.BasicBlock]bool, cut func(*ssa.BasicBlock) bool) bool {
+	if cut(h) {
+		return false
+	}
+	seen := map[*ssa.BasicBlock]bool{}
+	var st []*ssa.BasicBlock
+	for _, s := range h.Succs {
+		if body[s] {
+			st = append(st, s)
+		}
+	}
+	for len(st) > 0 {
+		x := st[len(st)-1]
+		st = st[:len(st)-1]
+		if x == h {
+			return true
+		}
+		if seen[x] || cut(x) {
+			continue
+		}
+		seen[x] = true
+		for _, s := range x.Succs {
+			if body[s] {
+				st = append(st, s)
+			}
+		}
+	}
+	return false
+}
